@@ -40,7 +40,21 @@ TYPES = {
     'bool': lambda: sa.Boolean,
 }
 
+class StampPlugin(scp.base.Plugin):
+    """a plugin of the harness that supplies an attribute for the transaction record (what FlaskPlugin does with
+    the user and the remote address): every call hands out a fresh stamp and remembers it"""
+
+    def __init__(self):
+        self.issued = []
+
+    def transaction_args(self, uow, session):
+        s = 'stamp-%d' % (len(self.issued) + 1)
+        self.issued.append(s)
+        return {'remote_addr': s}
+
+
 PLUGINS = {
+    'stamp': lambda: StampPlugin(),
     'null_delete': lambda: scp.NullDeletePlugin(),
     'mod_tracker': lambda: scp.PropertyModTrackerPlugin(),
     'tx_changes': lambda: scp.TransactionChangesPlugin(),
